@@ -18,8 +18,8 @@ from pathlib import Path
 
 VERIF = Path(__file__).resolve().parents[2]
 SPECS = VERIF / 'specs'
-EVIDENCE = VERIF / 'evidence'
-REPLAYS = VERIF / 'replays'
+EVIDENCE = Path(os.environ.get('TCVERIF_EVIDENCE_DIR', VERIF / 'evidence'))
+REPLAYS = Path(os.environ.get('TCVERIF_REPLAY_DIR', VERIF / 'replays'))
 REPO = Path(os.environ.get('TASKCHAIN_REPO', '/repo'))
 GUARD = 'TASKCHAIN_VERIF'
 
@@ -182,7 +182,7 @@ class Ctx:
                 {'id': i, 'count': h['count'], 'example': h['example']} for i, h in self.known_hits.items()
             ],
         }
-        EVIDENCE.mkdir(exist_ok=True)
+        EVIDENCE.mkdir(exist_ok=True, parents=True)
         (EVIDENCE / f'{self.prop}.json').write_text(json.dumps(jsonable(ev), indent=1) + '\n')
         for i, h in self.known_hits.items():
             print(f"KNOWN-FINDING: property={self.prop} {h['entry']['what']} [{i}; seen {h['count']}x this run]")
